@@ -47,6 +47,13 @@ class FixAssertTupleTransform(LibcstResultTransformer, NameResolutionMixin):
         for element in tuple_node.elements:
             if isinstance(element.value, cst.Tuple) and element.value.elements:
                 values.extend(self._flatten(element.value))
+            elif isinstance(element.value, cst.NamedExpr) and not element.value.lpar:
+                # `assert x := y` is not valid: an assignment expression needs its parentheses here
+                values.append(
+                    element.value.with_changes(
+                        lpar=[cst.LeftParen()], rpar=[cst.RightParen()]
+                    )
+                )
             else:
                 values.append(element.value)
         return values
